@@ -736,3 +736,87 @@ def text_mutants(rnd, base, lines, n):
             b[i] = b[i] + b" " + b[rnd.randrange(len(b))]
         out.append(b"\n".join(b))
     return out
+
+
+# ----- whole xattr map files for the model-vs-code tie of xattr_open_map_file (session 3): the case splits of the
+# line loop (istream_get_line: LF / CR LF / lone CR / no final newline / empty and blank lines in front of, between and
+# behind the payload lines / NUL inside a line / a line that straddles the 128 KiB window of the stream), of
+# parse_file_name (accepted, canonicalised, refused after earlier patterns with entries) and of parse_xattr (no pattern
+# yet, the three value syntaxes, refused values after earlier entries).
+XF_FILE_GOOD = [b"# file: file", b"# file: /sub/dir/f", b"# file: a//b/./c/", b"# file: ", b"# file: .", b"# file: /", b"# file: x y",
+                b"# file: \"q\"", b"# file: a\\b", b"# file: file", b"# file: \xc3\xa4", b"# file:  lead", b"# file: ..a/b.."]
+XF_FILE_BAD = [b"# file: ..", b"# file: ../x", b"# file: a/../b", b"# file: /..", b"# file: a/b/..", b"# file: ./../x"]
+XF_ATTR_GOOD = [b"user.a=b", b"user.t=\"hello world\"", b"user.h=0x68656c6c6f", b"user.H=0XDEADbeef", b"user.b=0saGVsbG8=", b"user.B=0SaGVsbG8h",
+                b"user.e=", b"user.o=\"\\101\\0\\12\\\\\\\"x\"", b"user.q=\"a\\\"b\"", b"trusted.x=0x", b"security.y=0s", b"user.eq=a=b=c", b"user.n=\\8\\9\\x",
+                b"user.odd=0x123", b"user.one=0x1", b"user.p=0sQQ", b"user.p2=0sQUI", b"user.p3=0sQUJD", b"user.u=0sQQ__", b"k=v", b"user.sp=a b  c",
+                b"user.lq=\"", b"user.q1=\"x", b"user.bs=\\", b"user.z=0x00ff", b"user.s=0s-_+/"]
+XF_ATTR_BAD = [b"user.a=0xzz", b"user.a=0x1g", b"user.a=0sQ", b"user.a=0s!!!!", b"user.a=0sQQ=x", b"user.a=0sQ=Q=", b"user.a=0sQQQQQ", b"user.a=0sQUJD=",
+               b"user.a=0x12 34"]
+XF_OTHER = [b"# comment", b"#", b"#file: x", b"# file:", b"", b" ", b"\t \t", b"# a=b", b"#=", b"novalue", b"\"", b"\\", b"\0", b"\0=x", b"user.a\0=x", b"\r", b"x\ry=z"]
+XF_EOL = [b"\n", b"\n", b"\n", b"\r\n", b"\r\r\n", b"\n\n", b" \n", b"\t\r\n", b"\n \n"]
+
+
+def xattr_struct_files(rnd, n):
+    out = []
+    # one of each line kind behind a pattern, each line ending, with and without the final newline
+    for l in XF_FILE_GOOD + XF_FILE_BAD + XF_ATTR_GOOD + XF_ATTR_BAD + XF_OTHER:
+        out.append(b"# file: first\nuser.keep=0x01\n" + l + b"\n")
+        out.append(l)
+    for e in XF_EOL:
+        out.append(b"# file: f" + e + b"user.a=b" + e + b"user.c=\"d\"" + e)
+        out.append(b"# file: f" + e + b"user.a=b" + e + b"user.c=\"d\"")
+        out.append(e + e + b"# file: f" + e + e + b"user.a=b" + e + b"# file: ../x" + e)
+    for _ in range(n):
+        k = rnd.randrange(1, 9)
+        lines = []
+        for i in range(k):
+            r = rnd.random()
+            if r < 0.25:
+                pool = XF_FILE_GOOD
+            elif r < 0.30:
+                pool = XF_FILE_BAD
+            elif r < 0.75:
+                pool = XF_ATTR_GOOD
+            elif r < 0.80:
+                pool = XF_ATTR_BAD
+            else:
+                pool = XF_OTHER
+            l = rnd.choice(pool)
+            if i == 0 and rnd.random() < 0.8:
+                l = rnd.choice(XF_FILE_GOOD)
+            if rnd.random() < 0.15:
+                l = rnd.choice([b" ", b"\t", b"  "]) + l + rnd.choice([b" ", b"\t", b""])
+            lines.append(l + rnd.choice(XF_EOL))
+        data = b"".join(lines)
+        if rnd.random() < 0.3:
+            data = data.rstrip(b"\n")
+        out.append(data)
+    return out
+
+
+def xattr_big_files():
+    """files larger than the 131072-byte window of the file stream: a line straddles the window edge / the '\\n' is the
+    last byte of the first window / the '\\r' of a CR LF is the last byte of the first window and the '\\n' the first of
+    the second.  Values are hex (the model's escape loop is quadratic in the line length, its hex decoder is not)"""
+    out = []
+    win = 131072
+    for tweak in (0, 1, 2):
+        eol = b"\r\n" if tweak == 2 else b"\n"
+        body = b"# file: big" + eol
+        i = 0
+        while len(body) < win + 3000:
+            key = b"user.k%03d=0x" % i
+            line = key + b"ab" * 900
+            end = len(body) + len(line) + len(eol)
+            if tweak and len(body) < win - 3700 <= end:
+                # the next line is stretched so that its last payload byte sits at win - 2: '\n' (tweak 1) / '\r' (tweak 2)
+                # lands on win - 1
+                pad = win - 1 - (len(body) + len(key))
+                if pad % 2:
+                    body += (b"##" if len(eol) % 2 else b"#") + eol
+                    continue
+                line = key + b"cd" * (pad // 2)
+            body += line + eol
+            i += 1
+        out.append(body)
+    return out
